@@ -29,6 +29,9 @@ func lexRun(input string) string {
 	if parts[0] == "T" {
 		return lexTables()
 	}
+	if parts[0] == "2" { // lexfam2.go
+		return lexRunTwo(parts[1])
+	}
 	src := unhx(parts[1])
 	var l *lexer.Lexer
 	marker := token.EOF
@@ -296,4 +299,5 @@ func lexGen(tier string, r *rng, emit func(string)) {
 			}
 		}
 	}
+	lexGapFamilies(tier, r, emit) // lexfam2.go
 }
